@@ -4,7 +4,7 @@ NOTES = ('Model-based verification with explicit TLA+ specifications (specs/), c
          'specifications (Binding B). See DESIGN.md.')
 ENGINES = [
     {'name': 'instance-edges', 'path': 'specs/Instance.tla + specs/MC*.tla + harness/src/bin/replay.rs',
-     'serves_properties': ['C03', 'C05', 'C06', 'C07', 'C08', 'C09', 'C10', 'C11', 'C12', 'C14', 'C15'],
+     'serves_properties': ['C03', 'C17', 'C05', 'C06', 'C07', 'C08', 'C09', 'C10', 'C11', 'C12', 'C14', 'C15'],
      'kind_free_text': 'TLC enumerates every edge of the bounded state graph of the instance/port specification; each edge is replayed on fresh real objects and the projection compared'},
 ]
 CLAIMED = {
@@ -105,5 +105,15 @@ CLAIMED['C15'] = {
              'above the room of an Announce (with and without path trace, path lengths up to 129); TLC checks the forwarding invariants; every edge is replayed on real ports wired to '
              'the real daemon forwarder, the TLV suffix of each emitted Announce is decoded independently and by statime\'s parser. A driver overflows the 128-slot channel.'),
     'note': 'one recorded finding (a TLV larger than any Announce blocks the queue); four defects found by this check are repaired by fix: commits',
+}
+
+CLAIMED['C17'] = {
+    'engine': 'instance-edges', 'level': 'model_checking', 'design_ref': 'DESIGN.md section 4, C17',
+    'technique': 'TLA+ lock model (writer-preferring RwLock, separate acquire/release steps) instantiated with acquisition patterns recorded from the real calls, checked by TLC for deadlock and AtomicSnapshot; nesting-detecting mutex under every replay; real-thread stress over std::sync::RwLock',
+    'text': ('Every replayed history runs over a PtpInstanceStateMutex implementation that panics on nested acquisition and logs, per public call, the sequence of read/write '
+             'spans and the data sets each write span changed. The observed patterns become the thread programs of Lock.tla (two port threads, the BMCA task, an observer); '
+             'TLC checks absence of deadlock, LockOK and AtomicSnapshot over all interleavings; negative controls (nested read, update split over two spans) must fail. A real '
+             'multi-threaded run over std::sync::RwLock checks that parent / time-properties snapshots and emitted Announces never mix two updates.'),
+    'note': 'RwLock assumed writer-preferring (Linux futex implementation); patterns are those reached by the randomised driver and the edge suites',
 }
 NOT_CLAIMED = {}
